@@ -34,15 +34,15 @@ def setBit (buffer : List Nat) (bit : Nat) (bitaddr : Nat) : Option (List Nat) :
   let byteAddr := bitaddr >>> 3
   let intra := bitaddr &&& 7
   let buffer := if buffer.length ≤ byteAddr then buffer ++ [0] else buffer
-  if h : byteAddr < buffer.length then
-    some (buffer.set byteAddr (buffer[byteAddr] ||| (bit <<< intra)))
+  if byteAddr < buffer.length then
+    some (buffer.set byteAddr (buffer.getD byteAddr 0 ||| (bit <<< intra)))
   else none
 
 /-- `_Buffer.get_bit`; `none` is "buffer overrrun" -/
 def getBit (buffer : List Nat) (bitaddr : Nat) : Option Nat :=
   let byteAddr := bitaddr >>> 3
   let intra := bitaddr &&& 7
-  if h : byteAddr < buffer.length then some ((buffer[byteAddr] >>> intra) &&& 1) else none
+  if byteAddr < buffer.length then some ((buffer.getD byteAddr 0 >>> intra) &&& 1) else none
 
 /-- the `for i in range(bits)` loop of `push_word`, from iteration `i` -/
 def pushLoop (w : Int) (addr : Nat) : Nat → Nat → List Nat → Option (List Nat)
